@@ -16,7 +16,9 @@ RULE = (
     "called from loops, with break / continue / return placed unconditionally, "
     "behind (logging) conditions and inside do..finally blocks; if/elif/else "
     "ladders whose conditions log their evaluation; every comprehension form "
-    "(list, set, map; single, for..for product, also-for parallel, with if) "
+    "(list, set, map; single, for..for product, also-for parallel, with if - "
+    "pure, logging its evaluation, or reading the trace length, i.e. state "
+    "that elements and conditions change) "
     "paired with its explicit-loop twin. Every visited iteration and every "
     "evaluated condition is appended to a trace. Oracle: the reference "
     "evaluator (result + trace) and, for comprehensions, equality with the "
